@@ -525,7 +525,7 @@ def run_unit(pid, jobs, tier, seed=0, only=None):
         if info.get("partial_after_timeout"):
             # one counterexample recovered after a timeout; nothing else of the job is decided
             for o in rest:
-                if o.status == "FAILURE" and not any(p_ in ("*", pid) and rx.search(o.key()) for (p_, rx, r_) in benign) \
+                if o.status == "FAILURE" and not any(p_ in ("*", pid, o.job[:3].upper()) and rx.search(o.key()) for (p_, rx, r_) in benign) \
                         and not any(p_ == pid and rx.search(o.key()) for (p_, rx, t_) in known):
                     res.obls.append(o)
                     res.violations.append(o)
@@ -535,7 +535,7 @@ def run_unit(pid, jobs, tier, seed=0, only=None):
             # only counterexamples count; nothing is proved
             bad = [o for o in rest if o.status == "FAILURE" and "unwinding assertion" not in o.desc
                    and spec_obligation(job, o.prop, o.func, o.desc)
-                   and not any(p_ in ("*", pid) and rx.search(o.key()) for (p_, rx, r_) in benign)
+                   and not any(p_ in ("*", pid, o.job[:3].upper()) and rx.search(o.key()) for (p_, rx, r_) in benign)
                    and not any(p_ == pid and rx.search(o.key()) for (p_, rx, t_) in known)]
             for o in bad:
                 res.obls.append(o)
@@ -568,7 +568,7 @@ def run_unit(pid, jobs, tier, seed=0, only=None):
                 res.undecided.append((job.name, "obligation %s has status %s" % (o.prop, o.status)))
                 continue
             k = o.key()
-            b = [r for (p, rx, r) in benign if p in ("*", pid) and rx.search(k)]
+            b = [r for (p, rx, r) in benign if p in ("*", pid, o.job[:3].upper()) and rx.search(k)]
             if b:
                 res.benign_hits.append((o, b[0]))
                 continue
